@@ -273,5 +273,13 @@ func (w *Witness) signChkpt(n *note.Note) ([]byte, error) {
 	if err != nil {
 		return nil, fmt.Errorf("couldn't sign checkpoint: %v", err)
 	}
+	// Never store or hand out a note which can't be read back, e.g. one which now has
+	// more signature lines than note.Open accepts: the stored checkpoint is re-opened at
+	// the start of every later update for this log.
+	if _, err := note.Open(cosigned, note.VerifierList()); err != nil {
+		if _, ok := err.(*note.UnverifiedNoteError); !ok {
+			return nil, fmt.Errorf("cosigned checkpoint is not a readable note: %v", err)
+		}
+	}
 	return cosigned, nil
 }
